@@ -144,7 +144,7 @@ func fieldLayout(p *load.Program) (weights, widths []int, w int) {
 }
 
 func modularFuncs(fn *ssa.Function) bool {
-	switch fn.Name() {
+	switch ssau.CanonName(fn) {
 	case "reduce", "ltModM", "SubVartime", "LessThanVartime", "LessThanOrEqualVartime", "SwapConditional", "windowbEqual",
 		"scalarmultBaseChooseNiels", "moveConditionalBytes", "moveConditionalBytes64", "moveConditionalBytes32":
 		return true
@@ -371,7 +371,7 @@ func ruleSelector(r *rep.Report, p *load.Program) {
 			var asmCall []int64
 			rowOf := map[int]int{}
 			it := absint.NewInterp(absint.Hooks{Modular: func(*ssa.Function) bool { return true }, Summary: func(it *absint.Interp, f *ssa.Function, args []absint.AnyVal, call ssa.Instruction) (absint.AnyVal, bool) {
-				switch f.Name() {
+				switch ssau.CanonName(f) {
 				case "moveConditionalBytes":
 					row := -1
 					if pv, ok := args[1].(absint.PtrV); ok {
